@@ -46,6 +46,7 @@ _delimiters_back = set(_parentheses.values())
 _nary_ops = ["->", ",", "+", " "]
 _ellipsis = "..."
 _axis_name = re.compile(r"[a-zA-Z_][a-zA-Z0-9_]*")
+_axis_value = re.compile(r"[0-9]+")
 _literals = _nary_ops + list(_delimiters_front) + list(_delimiters_back) + [_ellipsis]
 
 
@@ -69,7 +70,7 @@ def parse_op(text):
         nonlocal start_pos
         if start_pos != end_pos:
             token_text = text[start_pos:end_pos]
-            if token_text not in _literals and token_text not in _nary_ops and not _axis_name.fullmatch(token_text) and not token_text.isdigit():
+            if token_text not in _literals and token_text not in _nary_ops and not _axis_name.fullmatch(token_text) and not _axis_value.fullmatch(token_text):
                 raise SyntaxError(
                     text,
                     pos=range(start_pos, end_pos),
@@ -230,7 +231,7 @@ def parse_op(text):
         # Axis
         if len(in_tokens) == 1:
             value = in_tokens[0].text.strip()
-            if value.isdigit():
+            if _axis_value.fullmatch(value):
                 name = f"unnamed.{uuid.uuid4().int}"
                 return Axis(name, int(value), in_tokens[0].begin_pos, in_tokens[0].end_pos)
             else:
